@@ -362,7 +362,8 @@ def run_kani_group(prop_id, scratch, harnesses, features=None, cbmc_args=None, j
     res, wall = _run_kani_group(prop_id, scratch, harnesses, features, cbmc_args, jobs, timeout_s, mem_gb, extra_flags, key)
     crashed = [r["harness"] for r in res if r["status"] == "undecided" and r["reason"].startswith("no result for harness")]
     if crashed:
-        log("[%s] toolchain crash without result for %s: retrying once" % (prop_id, crashed))
+        why = next((r["reason"] for r in res if r["harness"] in crashed), "")
+        log("[%s] toolchain crash without result for %s: retrying once (%s)" % (prop_id, crashed, " ".join(why[-300:].split())))
         res2, wall2 = _run_kani_group(prop_id, scratch, crashed, features, cbmc_args, min(jobs or len(crashed), 2), timeout_s, mem_gb, extra_flags, (key or prop_id) + ".r")
         by = dict((r["harness"], r) for r in res2)
         res = [by.get(r["harness"], r) if r["harness"] in crashed else r for r in res]
